@@ -408,6 +408,9 @@ class MarkdownNormalizer(Renderer):
                 # Add the newline between paragraphs. Normally this would be an empty line but
                 # within a quote block it would be the secondary prefix, like `> `.
                 result += self._second_prefix.rstrip() + "\n"
+                # The break is done; a list starting right here (first block of this item,
+                # possibly inside a quote) must not emit another one before any content.
+                self._suppress_item_break = True
 
         if not element.children:
             # An empty item still needs its marker, or the item would vanish.
